@@ -494,7 +494,9 @@ def groupselectmin(table, key, value, presorted=False, buffersize=None,
 
     # N.B., sorting by value destroys any prior ordering by key, so the key
     # sort can never be skipped here, whatever `presorted` says
-    return groupselectfirst(sort(table, value, reverse=False), key,
+    return groupselectfirst(sort(table, value, reverse=False,
+                                 buffersize=buffersize, tempdir=tempdir,
+                                 cache=cache), key,
                             presorted=False, buffersize=buffersize,
                             tempdir=tempdir, cache=cache)
 
@@ -510,7 +512,9 @@ def groupselectmax(table, key, value, presorted=False, buffersize=None,
 
     # N.B., sorting by value destroys any prior ordering by key, so the key
     # sort can never be skipped here, whatever `presorted` says
-    return groupselectfirst(sort(table, value, reverse=True), key,
+    return groupselectfirst(sort(table, value, reverse=True,
+                                 buffersize=buffersize, tempdir=tempdir,
+                                 cache=cache), key,
                             presorted=False, buffersize=buffersize,
                             tempdir=tempdir, cache=cache)
 
